@@ -225,7 +225,7 @@ func runSnap(a *args) error {
 		sdir := fmt.Sprintf("%s/s%d/hash/states", dir, i)
 		os.MkdirAll(sdir, 0755)
 		os.WriteFile(sdir+"/0000000010-0000000000.kv"+ext+".abcdefgh.tmp", []byte("junk"), 0644)
-		os.WriteFile(fmt.Sprintf("%s/%010d-%010d.partial%s.zyxwvuts.tmp", sdir, initBlk+7, initBlk), []byte("half"), 0644)
+		os.WriteFile(fmt.Sprintf("%s/%010d-%010d.partial%s.zyxwvuts.tmp", sdir, initBlk+7, initBlk, ext), []byte("half"), 0644)
 		// (b) a foreign file
 		ss, _ := ds.SubStore("hash/states")
 		ss.WriteObject(ctx, "garbage.txt", bytesReader("junk"))
